@@ -10,6 +10,15 @@
 //   sup <seed32> <bound> <count>          v0 v1 v2 v3 fold [range!] [nondet]   random::sup<size_t>
 //   between <seed32> <a> <b> <count>      v0 v1 v2 v3 fold [range!] [nondet]   random::between<int>
 //   mixed <seed32> <count>                fold [nondet]    every entry point of vita::random, twice
+//   supu <E> <bound> <count>              …                random::sup<unsigned>
+//   betu64 <E> <a> <b> <count>            …                random::between<std::uint64_t>
+//   inr <E> <a> <b> <count>               …                random::in(range_t<int>)
+//   elem <E> <size> <count>               0-fold | v0 v1 v2 v3 fold     random::element (both overloads agree | the index)
+//   ring <E> <base> <width> <n> <count>   …                random::ring
+//   betd <E> <bitsA> <bitsB> <count>      b0 b1 b2 b3 fold lo=<#below min> eq=<#equal sup> hi=<#above sup> [nondet]
+//                                                          random::between<double>, random::in(range_t<double>)
+//   bool <E> <bitsP> <count>              fold ones=<n> [nondet]        random::boolean(p)
+//   <E> = a 32-bit seed (vita::random::seed) or st:w0:w1:w2:w3 (state written into vita::random::engine)
 //   cfgrt <A> <k> <B> <j> <n> <cfg>       same|diff|diff-stream|fail|oob  b0 b1 b2 b3  <hex of the text written>
 //                                         engine A (after k draws) is written to a std::stringstream whose
 //                                         formatting state / locale is <cfg> and read back from the SAME stream
@@ -175,14 +184,35 @@ std::string stream_answer(engine &e, unsigned n)
   return out + std::to_string(last) + " " + std::to_string(h);
 }
 
-template<class F, class P> std::string draws(unsigned seed, unsigned count, F f, P in_range)
+// puts vita::random::engine into the state `spec`: a 32-bit seed (through vita::random::seed) or
+// `st:w0:w1:w2:w3` (the object representation is overwritten: rare events can be constructed)
+void set_engine(const std::string &spec)
+{
+  static_assert(std::is_same_v<vita::random::engine_t, engine>, "vita::random::engine is not xoshiro256ss");
+  if (spec.rfind("st:", 0) == 0)
+  {
+    std::array<std::uint64_t, 4> w;
+    std::size_t pos(3);
+    for (auto &x : w)
+    {
+      std::size_t used(0);
+      x = std::stoull(spec.substr(pos), &used);
+      pos += used + 1;
+    }
+    std::memcpy(static_cast<void *>(&vita::random::engine), w.data(), sizeof(w));
+  }
+  else
+    vita::random::seed(std::stoul(spec));
+}
+
+template<class F, class P> std::string draws(const std::string &seed, unsigned count, F f, P in_range)
 {
   std::string out;
   std::uint64_t h[2] = {0, 0};
   bool range_ok(true);
   for (int pass(0); pass < 2; ++pass)      // in-process repetition: same seed, same draws
   {
-    vita::random::seed(seed);
+    set_engine(seed);
     for (unsigned i(0); i < count; ++i)
     {
       const auto v(f());
@@ -203,6 +233,7 @@ std::string mixed(unsigned seed, unsigned count)
   const std::vector<int> box = {3, 1, 4, 1, 5, 9, 2, 6};
   for (int pass(0); pass < 2; ++pass)
   {
+    vita::random::randomize();           // whatever it did, seed() must undo it
     vita::random::seed(seed);
     for (unsigned i(0); i < count; ++i)
     {
@@ -292,19 +323,101 @@ std::string answer(const std::vector<std::string> &t)
   if (t.size() == 4 && t[0] == "sup")
   {
     const std::size_t bound(std::stoull(t[2]));
-    return draws(std::stoul(t[1]), std::stoul(t[3]),
+    return draws(t[1], std::stoul(t[3]),
                  [bound] { return vita::random::sup<std::size_t>(bound); },
                  [bound](std::size_t v) { return v < bound; });
   }
   if (t.size() == 5 && t[0] == "between")
   {
     const int a(std::stoi(t[2])), b(std::stoi(t[3]));
-    return draws(std::stoul(t[1]), std::stoul(t[4]),
+    return draws(t[1], std::stoul(t[4]),
                  [a, b] { return static_cast<long long>(vita::random::between<int>(a, b)); },
                  [a, b](long long v) { return a <= v && v < b; });
   }
   if (t.size() == 3 && t[0] == "mixed")
     return mixed(std::stoul(t[1]), std::stoul(t[2]));
+  if (t.size() == 4 && t[0] == "supu")
+  {
+    const unsigned bound(std::stoul(t[2]));
+    return draws(t[1], std::stoul(t[3]), [bound] { return vita::random::sup<unsigned>(bound); },
+                 [bound](unsigned v) { return v < bound; });
+  }
+  if (t.size() == 5 && t[0] == "betu64")
+  {
+    const std::uint64_t a(std::stoull(t[2])), b(std::stoull(t[3]));
+    return draws(t[1], std::stoul(t[4]), [a, b] { return vita::random::between<std::uint64_t>(a, b); },
+                 [a, b](std::uint64_t v) { return a <= v && v < b; });
+  }
+  if (t.size() == 5 && t[0] == "inr")
+  {
+    const int a(std::stoi(t[2])), b(std::stoi(t[3]));
+    return draws(t[1], std::stoul(t[4]),
+                 [a, b] { return static_cast<long long>(vita::random::in(vita::range_t<int>{a, b})); },
+                 [a, b](long long v) { return a <= v && v < b; });
+  }
+  if (t.size() == 4 && t[0] == "elem")
+  {
+    std::vector<std::uint64_t> box(std::stoull(t[2]));
+    for (std::size_t i(0); i < box.size(); ++i) box[i] = i;
+    const auto &cbox(box);
+    return draws(t[1], std::stoul(t[3]),
+                 [&box, &cbox] { return vita::random::element(box) == vita::random::element(cbox) ? 0ull : 1ull; },
+                 [](std::uint64_t) { return true; })
+           + " | " +
+           draws(t[1], std::stoul(t[3]), [&cbox] { return vita::random::element(cbox); },
+                 [&cbox](std::uint64_t v) { return v < cbox.size(); });
+  }
+  if (t.size() == 6 && t[0] == "ring")
+  {
+    const unsigned base(std::stoul(t[2])), width(std::stoul(t[3])), n(std::stoul(t[4]));
+    return draws(t[1], std::stoul(t[5]), [=] { return vita::random::ring(base, width, n); },
+                 [n](unsigned v) { return v < n; });
+  }
+  if (t.size() == 5 && t[0] == "betd")      // random::between<double> / random::in(range_t<double>), bit patterns
+  {
+    const double a(verif::from_bits(std::stoull(t[2]))), b(verif::from_bits(std::stoull(t[3])));
+    const unsigned count(std::stoul(t[4]));
+    std::string out;
+    std::uint64_t h[3] = {0, 0, 0};
+    unsigned lo(0), eq(0), hi(0);
+    for (int pass(0); pass < 3; ++pass)
+    {
+      set_engine(t[1]);
+      for (unsigned i(0); i < count; ++i)
+      {
+        const double v(pass == 2 ? vita::random::in(vita::range_t<double>{a, b}) : vita::random::between<double>(a, b));
+        h[pass] = fold(h[pass], verif::bits(v));
+        if (pass == 0)
+        {
+          if (i < 4) out += std::to_string(verif::bits(v)) + " ";
+          if (v < a) ++lo;
+          if (v == b) ++eq;
+          if (v > b) ++hi;
+        }
+      }
+    }
+    out += std::to_string(h[0]) + " lo=" + std::to_string(lo) + " eq=" + std::to_string(eq) + " hi=" + std::to_string(hi);
+    if (h[0] != h[1] || h[0] != h[2]) out += " nondet";
+    return out;
+  }
+  if (t.size() == 4 && t[0] == "bool")      // random::boolean(p)
+  {
+    const double p(verif::from_bits(std::stoull(t[2])));
+    const unsigned count(std::stoul(t[3]));
+    std::uint64_t h[2] = {0, 0};
+    unsigned ones(0);
+    for (int pass(0); pass < 2; ++pass)
+    {
+      set_engine(t[1]);
+      for (unsigned i(0); i < count; ++i)
+      {
+        const bool v(vita::random::boolean(p));
+        h[pass] = fold(h[pass], v);
+        if (pass == 0 && v) ++ones;
+      }
+    }
+    return std::to_string(h[0]) + " ones=" + std::to_string(ones) + (h[0] != h[1] ? " nondet" : "");
+  }
   if (t.size() == 7 && t[0] == "cfgrt")
   {
     auto *a(make(0, t[1]));
